@@ -115,7 +115,8 @@ type c03Root struct {
 	sq       *vkit.Square
 	hdr      *header.ExtendedHeader
 	edsW     int
-	want     int // min(n, area)
+	want     int // min(n, area) for the sample count the running instance is configured with
+	nChanged bool // the sample count changed with the last restart and no request was seen since
 	kind     string
 	empty    bool
 	inWindow bool
@@ -293,7 +294,12 @@ func (m *c03Mon) saReturn(call *c03Call, err error) {
 	// safety: some set that was drawn for this block (the draw of the current epoch; after a
 	// crash-restart or overlapping calls possibly another one) has been validly served completely
 	var closest, unverified c03Set
+	enough := false
 	for _, d := range rt.draws {
+		if len(d) < rt.want {
+			continue // a set drawn under a smaller sample count cannot carry the configured one
+		}
+		enough = true
 		missing := d.minus(rt.U)
 		if len(missing) == 0 {
 			run.Count(m.mode+"/available/verified", 1)
@@ -308,6 +314,11 @@ func (m *c03Mon) saReturn(call *c03Call, err error) {
 	}
 	if unverified != nil {
 		m.unverifiedCounted(rt, unverified, "available-returned")
+		return
+	}
+	if !enough {
+		m.violate("C03 available although fewer distinct coordinates than min(sample count, area) were ever drawn and verified [sample count raised across a restart]", rt,
+			map[string]any{"configured_min(n,area)": rt.want, "validly_served_ever": len(rt.U)})
 		return
 	}
 	m.violate("C03 available although drawn coordinates were never validly served (last getter result: "+rt.lastShape+")", rt,
@@ -388,6 +399,14 @@ func (m *c03Mon) getterCall(hdr *header.ExtendedHeader, idxs []c03Coord, call *c
 
 	freshOK := len(req) == rt.want && bad == ""
 	switch {
+	case rt.nChanged && !rt.unordered:
+		// first request under another sample count: what an instance does with a result stored under the old
+		// count (continue it, refuse it, draw again) is not what the statement is about; the request is
+		// recorded as a draw and the safety half keeps judging "available"
+		rt.nChanged = false
+		run.Count(m.mode+"/chain/restart-with-another-sample-count/request-recorded", 1)
+		rt.drawn, rt.D, rt.pending = true, req.clone(), req.clone()
+		rt.draws = append(rt.draws, req.clone())
 	case rt.unordered:
 		known := false
 		for _, d := range rt.draws {
@@ -539,11 +558,18 @@ func (m *c03Mon) getterReturn(ev *c03GEv, smpls []shwap.Sample, err error) {
 	m.logf("  getter#%d(%s) result %s+%s: valid %d, invalid-non-empty %d of %d; still owed %d", rt.getterCalls, rt.name, shape, ec, nValid, nInvalid, len(ev.idxs), len(rt.pending))
 }
 
-func (m *c03Mon) restart(kind string) {
+func (m *c03Mon) restart(kind string, newN int) {
 	m.mu.Lock()
 	defer m.mu.Unlock()
 	m.logf("-- %s --", kind)
+	if newN > 0 {
+		m.logf("-- the new instance is configured with sample count %d --", newN)
+		m.c.run.Count(m.mode+"/restart/with-another-sample-count", 1)
+	}
 	for _, rt := range m.roots {
+		if newN > 0 {
+			rt.want, rt.nChanged = min(newN, rt.edsW*rt.edsW), true
+		}
 		if kind == "crash-restart" {
 			rt.crashed = true
 		} else {
